@@ -1,4 +1,5 @@
 //! shared plumbing: deterministic generator, case recorder, canonical encodings
+use std::hash::BuildHasher;
 use std::collections::{BTreeMap, HashSet};
 use std::fs::File;
 use std::hash::{Hash, Hasher};
@@ -267,4 +268,15 @@ pub fn catch<T>(f: impl FnOnce() -> T + std::panic::UnwindSafe) -> Result<T, Str
             Err(msg.lines().next().unwrap_or("").to_string())
         }
     }
+}
+
+/// the token that makes the MODEL hash the u64 item `x` with its own FNV-1a (`fnv:<id>`): the item -> hash step is then
+/// inside the model; the real sketcher hashes with the `fnv` crate
+pub fn fnv_tok(x: &u64) -> String {
+    format!("fnv:{}", x)
+}
+
+/// token for the hash of item `x` under hasher `H`: `fnv:<id>` (model-side FNV-1a) for `FnvHasher`, the hash in hex otherwise
+pub fn hash_tok<H: std::hash::Hasher + Default>(x: &u64) -> String {
+    if std::any::type_name::<H>().contains("FnvHasher") { fnv_tok(x) } else { hx(std::hash::BuildHasherDefault::<H>::default().hash_one(x)) }
 }
